@@ -358,16 +358,6 @@ def main():
                 if len(outv) == len(sub):
                     for k, o in zip(dv_idx, outv):
                         variants.setdefault(k, []).append(o)
-        # `Quantity::abs` without std is a hand-written `if v >= 0.0 { v } else { -v }` today (driver option `nostd`), which differs from
-        # `f32::abs` only in the sign of a zero / NaN; the property asks for "the f32 result of the same operator", so a build that
-        # uses the real `f32::abs` there is conformant as well: the std model is an accepted alternative on those lines
-        if "nostd" in drv_arg.split():
-            abs_idx = [k for k, c in enumerate(lines) if c.startswith("q abs ")]
-            if abs_idx:
-                rcv, outv, errv = run_prog([driver] + [x for x in drv_arg.split() if x != "nostd"], [lines[k] for k in abs_idx])
-                if len(outv) == len(abs_idx):
-                    for k, o in zip(abs_idx, outv):
-                        variants.setdefault(k, []).append(o)
         seen = set()
         hist = corr["histogram"]
         for k, (c, a, b) in enumerate(zip(lines, impl, model)):
